@@ -405,3 +405,77 @@ func init() {
 		}
 	}
 }
+
+// drainRace: requests are queued behind a stalled Send; the transport resumes slowly, and while the sender is working
+// through the queue the stream fails: the sender takes requests out of the channel WHILE the receiver's reconnect drains it. Whoever gets which request, the reconnect completes: the new stream gets the full
+// re-subscription, and lookups keep returning.
+func drainRace(c *ctx, queued int) {
+	w, err := newWorld(worldOpts{ndsNotRequired: true, fetchTimeout: time.Millisecond})
+	if err != nil {
+		fmt.Println("flow: world:", err)
+		return
+	}
+	hung := false
+	defer func() {
+		if !hung {
+			w.close()
+		}
+	}()
+	gate := make(chan struct{})
+	w.ads.mu.Lock()
+	w.ads.streams[len(w.ads.streams)-1].sendGate = gate
+	w.ads.mu.Unlock()
+	_ = w.get(rtOf("cds"), "s0")
+	w.waitFor(func() bool { return w.m.VerifQueueLen() == 0 }, 5*time.Second)
+	for i := 0; i < queued; i++ {
+		_ = w.get(rtOf("cds"), fmt.Sprintf("q%04d", i))
+	}
+	qlen := w.m.VerifQueueLen()
+	// the transport becomes slow instead of stalled: the sender works through the queue, one request every few dozen
+	// microseconds; once it is under way the stream fails
+	w.ads.mu.Lock()
+	w.ads.sendDelay = 20 * time.Microsecond
+	for _, s := range w.ads.streams {
+		s.sendGate = nil
+	}
+	w.ads.mu.Unlock()
+	close(gate)
+	w.waitFor(func() bool { return w.m.VerifQueueLen() < qlen }, 2*time.Second)
+	w.feedErr(errors.New("verif: stream reset"))
+	resub := w.waitFor(func() bool {
+		w.ads.mu.Lock()
+		defer w.ads.mu.Unlock()
+		for _, q := range w.ads.log {
+			if q.sid == 2 && q.req.TypeUrl == urlOf("cds") && len(q.req.ResourceNames) == queued+1 && q.req.ResponseNonce == "" {
+				return true
+			}
+		}
+		return false
+	}, 5*time.Second)
+	lookupDone := make(chan string, 1)
+	go func() { lookupDone <- w.get(rtOf("cds"), "after") }()
+	lookup := "hang"
+	select {
+	case lookup = <-lookupDone:
+	case <-time.After(3 * time.Second):
+		hung = true
+		w.hung = true
+	}
+	state := ""
+	if !resub || hung {
+		if goroutineIn("chan receive", "manager.clearRequestCh") {
+			state = "the receiver is parked in the drain of the request channel (inside reconnect, holding the client lock)"
+		}
+	}
+	c.count("flow.drain-race", 1)
+	c.emit(obj{"op": "flow", "kind": "drain-race", "n": queued, "obs": obj{"queuedAtFailure": qlen, "resubscribed": resub, "lookupAfter": lookup, "state": state, "wire": []interface{}{}}})
+}
+
+func init() {
+	// debugging aid: `harness drainrace` runs the drain-race scenario alone, ten times
+	props["drainrace"] = func(c *ctx) {
+		for i := 0; i < 10; i++ {
+			drainRace(c, 700)
+		}
+	}
+}
